@@ -797,6 +797,12 @@ def replay_filename(ta, tb, pname, cname):
     return (_timestamp2filename(a) != _timestamp2filename(b)) or a == b
 
 
+def replay_filename_text(ta, tb):
+    """real _timestamp2filename on two modified texts (dict-kept objects): equal names only for equal instants"""
+    from stix2.datastore.filesystem import _timestamp2filename
+    return (_timestamp2filename(ta) != _timestamp2filename(tb)) or utils.parse_into_datetime(ta) == utils.parse_into_datetime(tb)
+
+
 def job_filename_injective(tier, seed):
     """C11.c: FileSystemSink names a version file after its modified time; two stored versions get the same name only if their stored
     instants are equal (otherwise one version would be refused as an overwrite or lost)."""
@@ -844,6 +850,44 @@ def job_filename_injective(tier, seed):
                 ta = "%04d-%02d-%02dT%02d:%02d:%02d.%06dZ" % tuple(ma[k] for k in FIELDS)
                 tb = "%04d-%02d-%02dT%02d:%02d:%02d.%06dZ" % tuple(mb[k] for k in FIELDS)
                 cands.append({"call": "replay_filename(%r, %r, %r, %r)" % (ta, tb, p.name, c.name), "desc": "two different stored instants share a file name"})
+        # objects of unregistered types are kept as dictionaries: their modified time reaches _timestamp2filename as TEXT (any digit count)
+        fracs = [(6, 6), (4, 6), (3, 6), (None, 6), (3, 3), (1, 3)] if tier == "quick" else \
+            [(x, y) for x in (None, 1, 2, 3, 4, 5, 6) for y in (None, 1, 2, 3, 4, 5, 6) if (x or 0) <= (y or 0)]
+        for nfa, nfb in fracs:
+            def body_s(eng):
+                fa, fb = fresh(eng, "a"), fresh(eng, "b")
+                ta, qa = _text(eng, fa, nfa, "a")
+                tb, qb = _text(eng, fb, nfb, "b")
+                na = I.call_function(FS._timestamp2filename, [ta], {})
+                nb = I.call_function(FS._timestamp2filename, [tb], {})
+                return fa, fb, qa, qb, ta, tb, SStr.of(na), SStr.of(nb)
+            for pc, (kind, val) in eng.explore(body_s):
+                if kind != "return":
+                    if isinstance(val, ValueError):
+                        continue             # a text the parser refuses is never stored
+                    return _result(eng, I, bad, cands, samples, 0, asserting, t0, inconclusive="raised %r" % (val,))
+                fa, fb, qa, qb, ta, tb, na, nb = val
+                if len(na) != len(nb):
+                    continue
+                asserting += 1
+                same_name = z3.And([lift_c(x) == lift_c(y) for x, y in zip(na.chars, nb.chars)])
+                pad = lambda q: list(q) + [z3.IntVal(0)] * (6 - len(q))   # noqa: E731
+                same_inst = z3.And([lift(fa[k]) == lift(fb[k]) for k in FIELDS if k != "us"] + [x == y for x, y in zip(pad(qa), pad(qb))])
+                s = z3.Solver()
+                s.add(*pc)
+                s.add(same_name, z3.Not(same_inst))
+                eng.queries += 1
+                r = xcheck.check(s)
+                if r == "unsat":
+                    if len(samples) < 4:
+                        samples.append({"setting": "text with %s / %s fraction digits" % (nfa, nfb), "query": "name(a) == name(b) and a != b", "result": "unsat"})
+                    continue
+                if r != "sat":
+                    return _result(eng, I, bad, cands, samples, 0, asserting, t0, inconclusive="solver %s" % r)
+                bad += 1
+                m = s.model()
+                cands.append({"call": "replay_filename_text(%r, %r)" % (_concrete_text(m, ta.chars), _concrete_text(m, tb.chars)),
+                              "desc": "two different modified texts share a file name"})
     except Unsupported as e:
         return _result(eng, I, bad, cands, samples, 0, asserting, t0, inconclusive="translator does not cover: %s" % e)
     return _result(eng, I, bad, _dedupe(cands), samples, 0, asserting, t0)
